@@ -679,6 +679,13 @@ class Lexer(object):
     @ply.lex.TOKEN(identifier)
     def t_ID(self, token):
         token.type = self.keywords_dict.get(token.value, 'ID')
+        if (token.type != 'ID' and self.cur_token_real is not None and
+                self.cur_token_real.type == 'PERIOD'):
+            # an IdentifierName after `.` is a property name, never a
+            # keyword: it must not take part in the rules keyed on
+            # keyword tokens (restricted productions, statement
+            # headers, regex vs. division).
+            token.type = 'ID'
         return token
 
     def t_error(self, token):
